@@ -6,6 +6,7 @@ CONSTANTS
   MaxSelect = 2
   GcBefore = 0
   Concurrent = FALSE
+  WithCheckpoint = FALSE
   OrderedPush = FALSE
   AsBuilt = {}
 INVARIANTS ManifestSound ConfirmedRecoverable RecoveryStable NothingSilentlyDropped
